@@ -104,7 +104,9 @@ def cases(tier):
                 yield ('v', 'act', form, 1, sk, code, False)
         for place in ('setup-run', 'before-assert-run', 'assert-run', 'cleanup-run', 'setup-percent', 'stdout-from', 'run-transformer', 'exit-code-from'):
             for ign in (False, True):
-                yield ('v', place, 'sym', 1, 'none', code, ign)
+                for silent in (False, True):   # a program that fails without writing anything to stderr
+                    for form in ('sym', 'percent'):
+                        yield ('v', place, form, 1, 'none', code, ign, silent)
     # E: actors
     for actor in ('file', 'source', 'null'):
         for ai in (0, 3, 12, 14):
@@ -284,18 +286,17 @@ def _target_calls(seam, exp_first):
 
 
 def _virtual(res, case, w, seam):
-    _, place, form, ai, sk, code, ign = case
+    _, place, form, ai, sk, code, ign = case[:7]
+    silent = len(case) > 7 and case[7]
     al = arg_lists('thorough')[ai] if ai >= len(arg_lists('quick')) else arg_lists('quick')[ai]
     b = build(place, form, al, sk, code, ign)
     if b is None:
         res.stats['combination not expressible'] += 1
         return res
     text, exp, outcome = b
-    seam.default = {'out': OUT, 'err': ERR, 'exit': code}
+    seam.default = {'out': OUT, 'err': '' if silent else ERR, 'exit': code}
     seam.script['gen'] = {'out': 'GEN'}
     seam.script['atc'] = {'out': 'atc out\n'}
-    if place in ('run-transformer',):
-        seam.default = {'out': OUT, 'err': ERR, 'exit': code}
     o = cli.run_case(text)
     errs = []
     if o.exc:
